@@ -20,7 +20,7 @@ from ..runner import Outcome, fail, open_features
 from ..strategies import Cfg, Ctx, draw_dataset, leaf, cond_tree, chance
 from ..world import build_entities, CLASSES
 from ..build import declare_vars, build_over, build_cond, build_term, rows_of, Built
-from ..qcheck import reference_rows, compare_sets, render_query, var_domains, ident, show_rows
+from ..qcheck import reference_rows, compare_sets, render_query, var_domains, ident, show_rows, abandon
 
 from entity_query_language import an, a, the, entity, set_of, symbolic_mode, From, let
 
@@ -63,7 +63,7 @@ def _case(draw, tier):
     doms = [list(draw(st.permutations(list(range(n))))[:draw(st.sampled_from([1, 2, 3, 3, 4]))]) for _ in range(nv)]
     vars_ = [{"dom": v, "decl": draw(st.sampled_from(["let", "from"])), "type": "Ent"} for v in range(nv)]
     case = {"ents": recs, "doms": doms, "vars": vars_, "dom_kind": "list", "position": position, "quant": "an",
-            "split_top": False}
+            "split_top": False, "abandon_first": draw(st.sampled_from([0, 0, 1, 2]))}
     allv = list(range(nv))
     if position == "condition":
         def sub():
@@ -158,7 +158,7 @@ def check(case) -> Outcome:
     objs = build_entities(case["ents"])
     pos = case["position"]
     doms = var_domains(case, objs)
-    classes = ["position_" + pos]
+    classes = ["position_" + pos] + (["after_abandoned_evaluation"] if case.get("abandon_first") else [])
     feats = list(classes)
     nontrivial = False
 
@@ -176,6 +176,7 @@ def check(case) -> Outcome:
         def run(c):
             V, conts = declare_vars(c, objs)
             b = build_over(V, c, conts=conts)
+            abandon(b.q, case.get("abandon_first", 0))
             first = rows_of(b, list(b.q.evaluate()))
             # the same query object evaluated again (and a third time) must give the same row set
             for n in (2, 3):
@@ -225,6 +226,7 @@ def check(case) -> Outcome:
                         cmp_ = (lt == x) if case["sub_side"] == "right" else (x == lt)
                         conds = [cmp_, build_cond(case["sub_cond"], [None, x])] + ([build_cond(extra, [l])] if extra is not None else [])
                         q = an(entity(l, *conds))
+                abandon(q, case.get("abandon_first", 0))
                 return [(r,) for r in q.evaluate()]
         elif pos == "operand_attr":
             sub_side_l = case["sub_side"] == "left"
@@ -247,6 +249,8 @@ def check(case) -> Outcome:
             classes += ["sub_correlated" if 0 in A.cond_vars(case["sub_cond"]) else "sub_uncorrelated",
                         "other_const" if case["other"][0] == "const" else "other_outer_attr", f"selected{len(sel)}",
                         "combined_by_" + case.get("conn", "and")]
+            if case.get("conn") == "or":
+                feats.append("operand_attr_combined_by_or")      # KF-44
 
             def run(which):
                 V, conts = declare_vars(case, objs)
@@ -269,6 +273,7 @@ def check(case) -> Outcome:
                     else:
                         conds = pre + mine if case["pre_first"] else mine + pre
                     q = an(set_of([V[v] for v in sel], *conds))
+                abandon(q, case.get("abandon_first", 0))
                 first = [tuple(r[V[v]] for v in sel) for r in q.evaluate()]
                 for n in (2, 3):
                     again = [tuple(r[V[v]] for v in sel) for r in q.evaluate()]
@@ -293,6 +298,7 @@ def check(case) -> Outcome:
                         q = an(set_of([q0, q1]))
                     else:
                         q = an(set_of([V[0], V[1]], build_cond(case["c0"], V), build_cond(case["c1"], V)))
+                abandon(q, case.get("abandon_first", 0))
                 return [(r[V[0]], r[V[1]]) for r in q.evaluate()]
     from entity_query_language.cache_data import enable_caching, disable_caching
     results = {}
